@@ -26,6 +26,6 @@ Task: make a small, realistic change to the library source under {wt}/flox (the 
 
 Deliverables (all inside {wt}): the source change left applied in the worktree (uncommitted), `patch.diff` produced by `git -C {wt} diff -- flox > {wt}/patch.diff`, `demo.py`, and `meta.json` with keys: property, summary (what was changed), needs (what is required for the bug to manifest), tests_run (the commands you ran and the pass/fail counts before and after), demo_before (output on original code), demo_after (output on changed code).
 
-To test demo.py on the original code, use `git -C {wt} stash` / `git -C {wt} stash pop` around it (be careful to restore your change), or apply/reverse the patch with `git apply -R patch.diff` then `git apply patch.diff`.
+To test demo.py on the original code, reverse and re-apply the patch with `git -C {wt} apply -R patch.diff` then `git -C {wt} apply patch.diff` (do NOT use `git stash`: the stash is shared by all worktrees of the repository and other people are working in sibling worktrees).
 
 Prefer a subtle change in the mechanism named by the anchors above.{(" Another seeded defect already exists in " + avoid + "; choose a DIFFERENT function and a different way of breaking the property (another clause of the statement if it has several).") if avoid else ""} Do not modify tests. Do not add new files to the library. Keep the change under ~15 lines. When finished, reply with a 5-line summary (what changed, what is needed to trigger, test results before/after).""")
